@@ -5,6 +5,7 @@ import (
 	"bytes"
 	"errors"
 	"fmt"
+	"go/format"
 	"os"
 	"path/filepath"
 	"strings"
@@ -96,6 +97,7 @@ func noteWrap(entry string, err error) {
 type target struct {
 	name   string
 	render func(w *faultWriter) error
+	code   func() jen.Code // fragment entry points: the Code that is rendered (for the independent reference)
 }
 
 func check(c Case) error {
@@ -110,18 +112,18 @@ func check(c Case) error {
 	valid := refErr == nil
 
 	// entry points working on a writer
-	targets := []target{{"File.Render", func(w *faultWriter) error { f, _ := build(); return f.Render(w) }}}
+	targets := []target{{"File.Render", func(w *faultWriter) error { f, _ := build(); return f.Render(w) }, nil}}
 	for i, n := range c.File.Body {
 		if n == nil || n.Kind != recipe.KStmt || i > 1 {
 			continue
 		}
 		n := n
 		targets = append(targets,
-			target{fmt.Sprintf("Statement.Render[%d]", i), func(w *faultWriter) error { return (&recipe.Builder{}).Stmt(n).Render(w) }},
+			target{fmt.Sprintf("Statement.Render[%d]", i), func(w *faultWriter) error { return (&recipe.Builder{}).Stmt(n).Render(w) }, func() jen.Code { return (&recipe.Builder{}).Stmt(n) }},
 			target{fmt.Sprintf("Statement.RenderWithFile[%d]", i), func(w *faultWriter) error {
 				f, _ := build()
 				return (&recipe.Builder{}).Stmt(n).RenderWithFile(w, f)
-			}},
+			}, nil},
 		)
 		// a group with the same items, obtained through a ...Func callback
 		grp := func() *jen.Group {
@@ -130,15 +132,42 @@ func check(c Case) error {
 			return g
 		}
 		targets = append(targets,
-			target{fmt.Sprintf("Group.Render[%d]", i), func(w *faultWriter) error { return grp().Render(w) }},
-			target{fmt.Sprintf("Group.RenderWithFile[%d]", i), func(w *faultWriter) error { f, _ := build(); return grp().RenderWithFile(w, f) }},
+			target{fmt.Sprintf("Group.Render[%d]", i), func(w *faultWriter) error { return grp().Render(w) }, func() jen.Code { return jen.Block((&recipe.Builder{}).Stmt(n)) }},
+			target{fmt.Sprintf("Group.RenderWithFile[%d]", i), func(w *faultWriter) error { f, _ := build(); return grp().RenderWithFile(w, f) }, nil},
 		)
+	}
+	// independent reference for fragment renders: gofmt of the raw text the same Code renders as
+	// the only item of a NoFormat File
+	fragRef := func(code jen.Code) ([]byte, bool) {
+		f := jen.NewFile("p")
+		f.NoFormat = true
+		f.Add(jen.Id("ZZFRAGMENTSTART"))
+		f.Add(code)
+		buf := &bytes.Buffer{}
+		if err := f.Render(buf); err != nil {
+			return nil, false
+		}
+		i := bytes.Index(buf.Bytes(), []byte("ZZFRAGMENTSTART"))
+		if i < 0 {
+			return nil, false
+		}
+		raw := bytes.TrimPrefix(buf.Bytes()[i+len("ZZFRAGMENTSTART"):], []byte("\n"))
+		out, err := format.Source(raw)
+		if err != nil {
+			return nil, false
+		}
+		return out, true
 	}
 	for _, tg := range targets {
 		entry := tg.name[:strings.IndexAny(tg.name+"[", "[")]
 		// fault-free reference for this entry point
 		okw := &faultWriter{}
 		okErr := tg.render(okw)
+		if okErr == nil && tg.code != nil {
+			if want, ok := fragRef(tg.code()); ok && !bytes.Equal(want, okw.buf.Bytes()) {
+				return fmt.Errorf("%s: success reported, the writer received %q, but gofmt of the raw rendering of the same code is %q", tg.name, okw.buf.Bytes(), want)
+			}
+		}
 		for _, wf := range writerFaults {
 			w := &faultWriter{failAt: wf.failAt, partial: wf.partial}
 			err := tg.render(w)
